@@ -14,7 +14,7 @@ from pyvc.oblig import obligation
 from spyne import Application, ServiceBase, rpc
 from spyne.model.complex import ComplexModel, Array
 from spyne.model.enum import Enum
-from spyne.model.primitive import (Integer, Integer8, UnsignedInteger8, Integer32, Unicode, Decimal, Boolean)
+from spyne.model.primitive import (Integer, Integer8, UnsignedInteger8, Integer32, Unicode, Decimal, Boolean, Date, DateTime)
 from spyne.server.wsgi import WsgiApplication
 
 from .pipeline import protocols, soap_env, SOAP11_NS, SOAP12_NS, TNS, FAMILIES_ALL
@@ -39,6 +39,12 @@ FIELDS = OrderedDict([
                probe=['__absent__'])),
     ('v', dict(type=lambda: Integer(values=[2, 4]), ok=lambda v: v in (2, 4), base=2, probe=[4, 3])),
     ('d', dict(type=lambda: Integer, ok=lambda v: not isinstance(v, list), base=3, probe=[[1, 2], ABSENT])),
+    # lexical well-formedness: only the XSD literal forms are dates / date-times (not the other ISO 8601 spellings)
+    ('da', dict(type=lambda: Date, ok=lambda v: _is_xsd_date(v), base='2020-02-28',
+                probe=['20200228', '2020-W09-5', '2020-02-30', '2020-02-28Z', '2020-02-28+05:30', '2020-059'])),
+    ('dm', dict(type=lambda: DateTime, ok=lambda v: _is_xsd_datetime(v), base='2020-02-28T10:11:12',
+                probe=['20200228T101112', '2020-02-28T10:11:12Z', '2020-02-28T10:11:12.5+01:00', '2020-W09-5T10:11:12',
+                       '2020-02-28T25:00:00'])),
     # a complex argument whose class inherits constrained members: inherited and own members are enforced alike
     ('x', dict(type=lambda: SubArg, complex=True,
                ok=lambda v: 'im' in v and len(v.get('ir', [])) <= 2 and 'om' in v and (v['im'] is None or v['im'] >= 0),
@@ -55,6 +61,32 @@ FIELDS = OrderedDict([
 ])
 
 
+def _is_xsd_date(v):
+    import datetime as dt
+    import re
+    m = re.fullmatch(r'(\d{4})-(\d{2})-(\d{2})(Z|[+-]\d{2}:\d{2})?', v)
+    if not m:
+        return False
+    try:
+        dt.date(int(m.group(1)), int(m.group(2)), int(m.group(3)))
+    except ValueError:
+        return False
+    return True
+
+
+def _is_xsd_datetime(v):
+    import datetime as dt
+    import re
+    m = re.fullmatch(r'(\d{4})-(\d{2})-(\d{2})T(\d{2}):(\d{2}):(\d{2})(\.\d+)?(Z|[+-]\d{2}:\d{2})?', v)
+    if not m:
+        return False
+    try:
+        dt.datetime(*[int(m.group(i)) for i in range(1, 7)])
+    except ValueError:
+        return False
+    return True
+
+
 class BaseArg(ComplexModel):
     __namespace__ = TNS
     im = Integer(min_occurs=1, ge=0)
@@ -66,36 +98,62 @@ class SubArg(BaseArg):
     om = Integer(min_occurs=1)
 
 
-def build_request(family, args):
+def _q(x):
+    from urllib.parse import quote
+    return quote(str(x), safe='')
+
+
+def _positional(v):
+    """the positional form of a BaseArg / SubArg value: all members in declaration order, parents first"""
+    return [v.get('im'), v.get('ir'), v.get('om')]
+
+
+def _ok_positional(v):
+    # an unset member is spelled as null in the positional form: present and null, which a nillable member admits
+    return len(v.get('ir') or []) <= 2 and (v.get('im') is None or v['im'] >= 0)
+
+
+def build_request(family, args, meth='check', positional=False, _positional=_positional):
     """The request document that spells `args` (name -> value | list | ABSENT) by the family's conventions."""
     args = OrderedDict((k, v) for k, v in args.items() if v != ABSENT)
+    if positional:
+        args = OrderedDict((k, (_positional(v) if isinstance(v, dict) else [_positional(i) for i in v]
+                                if isinstance(v, list) and v and isinstance(v[0], dict) else v)) for k, v in args.items())
     if family == 'http':
         parts = []
         for k, v in args.items():
             if isinstance(v, dict):
                 for k2, v2 in v.items():
                     for x in (v2 if isinstance(v2, list) else [v2]):
-                        parts.append('%s.%s=%s' % (k, k2, x))
+                        parts.append('%s.%s=%s' % (k, k2, _q(x)))
                 continue
             if isinstance(v, list) and v and isinstance(v[0], dict):
                 for i, item in enumerate(v):
                     for k2, v2 in item.items():
-                        parts.append('%s[%d].%s=%s' % (k, i, k2, v2))
+                        parts.append('%s[%d].%s=%s' % (k, i, k2, _q(v2)))
                 continue
             for x in (v if isinstance(v, list) else [v]):
-                parts.append('%s=%s' % (k, x))
-        return 'GET', '/check', '&'.join(parts), b'', 'text/plain'
+                parts.append('%s=%s' % (k, _q(x)))
+        return 'GET', '/' + meth, '&'.join(parts), b'', 'text/plain'
     if family == 'json':
-        return 'POST', '/', '', json.dumps({'check': args}).encode(), 'application/json'
+        return 'POST', '/', '', json.dumps({meth: args}).encode(), 'application/json'
     if family == 'yaml':
         import yaml
         plain = lambda v: dict(v) if isinstance(v, dict) else ([plain(x) for x in v] if isinstance(v, list) else v)
-        return 'POST', '/', '', yaml.safe_dump({'check': {k: plain(v) for k, v in args.items()}}).encode(), 'text/yaml'
+        return 'POST', '/', '', yaml.safe_dump({meth: {k: plain(v) for k, v in args.items()}}).encode(), 'text/yaml'
+    if family == 'msgpackrpc':
+        # MessagePack-RPC: [type, msgid, method, [positional arguments]]; an argument that is not given is null
+        import msgpack
+        full = OrderedDict((k, None) for k in FIELDS) if meth == 'check' else OrderedDict()
+        full.update(args)
+        bk = lambda v: {k2: bk(v2) for k2, v2 in v.items()} if isinstance(v, dict) else (
+            [bk(x) for x in v] if isinstance(v, list) else v)
+        return 'POST', '/', '', msgpack.packb([0, 1, meth, [bk(v) for v in full.values()]]), 'application/x-msgpack'
     if family == 'msgpack':
         import msgpack
         bk = lambda v: {k2.encode(): v2 for k2, v2 in v.items()} if isinstance(v, dict) else (
             [bk(x) for x in v] if isinstance(v, list) else v)
-        return 'POST', '/', '', msgpack.packb({b'check': {k.encode(): bk(v) for k, v in args.items()}}), 'application/x-msgpack'
+        return 'POST', '/', '', msgpack.packb({meth.encode(): {k.encode(): bk(v) for k, v in args.items()}}), 'application/x-msgpack'
     elts = []
     for k, v in args.items():
         if isinstance(v, dict) or (isinstance(v, list) and v and isinstance(v[0], dict)):
@@ -106,9 +164,9 @@ def build_request(family, args):
             continue
         for x in (v if isinstance(v, list) else [v]):
             elts.append('<tns:%s>%s</tns:%s>' % (k, x, k))
-    body = '<tns:check>%s</tns:check>' % ''.join(elts)
+    body = '<tns:%s>%s</tns:%s>' % (meth, ''.join(elts), meth)
     if family == 'xml':
-        return 'POST', '/', '', body.replace('<tns:check>', '<tns:check xmlns:tns="%s">' % TNS, 1).encode(), 'text/xml'
+        return 'POST', '/', '', body.replace('<tns:%s>' % meth, '<tns:%s xmlns:tns="%s">' % (meth, TNS), 1).encode(), 'text/xml'
     return 'POST', '/', '', soap_env(SOAP11_NS if family == 'soap11' else SOAP12_NS, body), 'text/xml'
 
 
@@ -118,7 +176,9 @@ def _mk(family):
                      "every value conforms; otherwise the function is not entered and the fault is in the "
                      "Client.ValidationError family; boundary values of fixed-width bounds, length, pattern, enumeration, "
                      "ranges, occurrence and nullability",
-                bounded="one probe value at a time around every boundary of 10 constrained arguments (35 requests)",
+                bounded="one probe value at a time around every boundary of 13 constrained arguments (50 requests); complex "
+                        "arguments as maps and positionally (dict documents); on a fresh application and after another "
+                        "method of the service (taking the parent class) has been served",
                 assumptions=["request documents are built by the documented conventions of each protocol"])
     def ob(c):
         probes = [(None, None)] + [(k, p) for k, f in FIELDS.items() for p in f['probe']]
@@ -126,16 +186,30 @@ def _mk(family):
         args = OrderedDict((k, f['base']) for k, f in FIELDS.items())
         if field is not None:
             args[field] = probe
-        expected_ok = all(f['ok'](args[k]) for k, f in FIELDS.items())
+        # dict documents may spell an object as a map or positionally (a sequence aligned with the members)
+        positional = family in ('json', 'yaml', 'msgpack', 'msgpackrpc') and field in (None, 'x', 'xs') and \
+            c.choose(['map', 'positional'], 'object_shape') == 'positional'
+        # the application may have served other requests before (the service's other method, same document shape)
+        warm = field in (None, 'x', 'xs') and c.choose(['cold', 'warm'], 'history') == 'warm'
+        if positional:
+            expected_ok = all(f['ok'](args[k]) for k, f in FIELDS.items() if k not in ('x', 'xs')) and \
+                _ok_positional(args['x']) and 1 <= len(args['xs']) <= 2 and all(_ok_positional(i) for i in args['xs'])
+        else:
+            expected_ok = all(f['ok'](args[k]) for k, f in FIELDS.items())
         names = list(FIELDS)
         types = [FIELDS[k]['type']() for k in names]
         calls = []
 
-        def check(ctx, b, u, w, s, e, r, g, o, n, v, d, x, xs):
-            calls.append((b, u, w, s, e, r, g, o, n, v, d, x, xs))
-            return 1
+        ns_ = {}
+        exec("def check(ctx, %s):\n    return _rec(%s)\n" % (', '.join(names), ', '.join(names)),
+             dict(_rec=lambda *a: (calls.append(a), 1)[1]), ns_)
+        check = ns_['check']
         check._pyvc_native = True
-        Svc = type(ServiceBase)('Svc', (ServiceBase,), {'check': rpc(*types, _returns=Integer)(check)})
+        def other(ctx, p):
+            return 1
+        other._pyvc_native = True
+        Svc = type(ServiceBase)('Svc', (ServiceBase,), {'check': rpc(*types, _returns=Integer)(check),
+                                                        'other': rpc(BaseArg, _returns=Integer)(other)})
         if family == 'http_strict_arrays':
             from spyne.protocol.http import HttpRpc
             from spyne.protocol.json import JsonDocument
@@ -144,7 +218,22 @@ def _mk(family):
             inp, outp = protocols(family, 'soft')
         app = Application([Svc], TNS, name='VApp', in_protocol=inp, out_protocol=outp)
         wsgi = WsgiApplication(app)
-        method, path, qs, body, ctype = build_request('http' if family == 'http_strict_arrays' else family, args)
+        fam = 'http' if family == 'http_strict_arrays' else family
+        if warm:
+            wm, wp, wq, wb, wc = build_request(fam, OrderedDict([('p', OrderedDict([('im', 1)]))]), 'other', positional,
+                                                 lambda v: [v.get('im'), v.get('ir')])
+            wenv = {'REQUEST_METHOD': wm, 'PATH_INFO': wp, 'QUERY_STRING': wq, 'SERVER_NAME': 'h', 'SERVER_PORT': '80',
+                    'wsgi.url_scheme': 'http', 'wsgi.input': io.BytesIO(wb), 'CONTENT_TYPE': wc, 'CONTENT_LENGTH': str(len(wb))}
+            wseen = []
+
+            def wsr(status, headers, exc_info=None):
+                wseen.append(status)
+            wsr._pyvc_native = True
+            wo = c.run(wsgi, wenv, wsr)
+            if wo.returned:
+                c.run(lambda: list(wo.value))
+            c.check('earlier_request_served', wo.returned and bool(wseen) and wseen[0].startswith('200'), detail=(repr(wo), wseen))
+        method, path, qs, body, ctype = build_request(fam, args, 'check', positional)
         env = {'REQUEST_METHOD': method, 'PATH_INFO': path, 'QUERY_STRING': qs, 'SERVER_NAME': 'h', 'SERVER_PORT': '80',
                'wsgi.url_scheme': 'http', 'wsgi.input': io.BytesIO(body), 'CONTENT_TYPE': ctype,
                'CONTENT_LENGTH': str(len(body))}
@@ -168,7 +257,7 @@ def _mk(family):
             norm = {k: (list(got[k]) if isinstance(got[k], (list, tuple)) else got[k]) for k in names}
             norm['e'] = str(getattr(norm['e'], 'name', norm['e'])) if not isinstance(norm['e'], str) else norm['e']
             c.check('values_delivered', all(norm[k] == (None if want[k] == ABSENT else want[k]) for k in names
-                                            if k not in ('e', 'x', 'xs')), detail=(norm, want))
+                                            if k not in ('e', 'x', 'xs', 'da', 'dm')), detail=(norm, want))
             gxs = list(got['xs'] or [])
             c.check('repeated_complex_argument_delivered', [(i.im, i.om) for i in gxs] == [(w.get('im'), w.get('om')) for w in
                                                                                              want['xs']], detail=(gxs, want['xs']))
@@ -190,5 +279,4 @@ def _mk(family):
 
 
 for _f in FAMILIES_ALL + ['http_strict_arrays']:
-    if _f != 'msgpackrpc':       # positional arguments: absence and repetition of a named member cannot be spelled
-        _mk(_f)
+    _mk(_f)               # (MessagePack-RPC passes arguments positionally: an argument that is not given arrives as null)
